@@ -394,7 +394,7 @@ impl Gen {
         let mut out = String::new();
         for ch in base.chars() {
             if self.rng.chance(1, 5) {
-                out.push(*self.rng.pick(&['n', 'm', 'N', 'M', 'c', 'z', 'r']));
+                out.push(*self.rng.pick(&['n', 'm', 'N', 'M', 'c', 'z', 'r', 'x', 'w']));
             }
             out.push(ch);
         }
